@@ -427,7 +427,7 @@ def _history(draw, spec):
     return ops
 
 
-_rootkind = st.sampled_from([0, 2, 0, 3, 1, 0, 4, 2, 3, 5])
+_rootkind = st.sampled_from([0, 0, 2, 0, 3, 0, 1, 4, 0, 2, 5, 3])
 
 
 def _roots(draw, a, b):
